@@ -348,6 +348,72 @@ fn built_seeds(crypto: bool, max_len: usize) -> Vec<Seed> {
     seeds
 }
 
+/// Correctly signed generic RPKI signed objects, assembled by the independent
+/// CMS assembler, whose signed attributes total 65534..65537 octets: the
+/// sizes around the decoder's 65535-octet limit, which byte-level mutation
+/// of ordinary objects practically never produces. They validate under the
+/// fixed issuer (pool key 0), so the accessor sweep reaches signature
+/// verification with them.
+fn boundary_attr_seeds() -> Vec<Seed> {
+    use crate::c02_cms as cms;
+    use rpki::repository::cert::{KeyUsage, Overclaim, TbsCert};
+    use rpki::repository::resources::{AsResources, IpResources};
+    use rpki::repository::x509::{Time, Validity};
+    let made = catch(|| {
+        let pool = crate::keys::PoolSigner::new(2);
+        let issuer = pool.info(0);
+        let uri = rpki::uri::Rsync::from_str("rsync://example.com/repo/ca/x.sig").unwrap();
+        let mut tbs = TbsCert::new(
+            4711u64.into(),
+            issuer.to_subject_name(),
+            Validity::new(Time::utc(2025, 1, 1, 0, 0, 0), Time::utc(2027, 1, 1, 0, 0, 0)),
+            None,
+            pool.info(1),
+            KeyUsage::Ee,
+            Overclaim::Refuse,
+        );
+        tbs.set_authority_key_identifier(Some(issuer.key_identifier()));
+        tbs.set_crl_uri(Some(uri.clone()));
+        tbs.set_ca_issuer(Some(uri.clone()));
+        tbs.set_signed_object(Some(uri));
+        tbs.set_v4_resources(IpResources::inherit());
+        tbs.set_as_resources(AsResources::inherit());
+        let ee = tbs.into_cert(&pool, &0).ok()?.to_captured().as_slice().to_vec();
+        let ski = cms::ski_of_spki(&pool.key(1).spki);
+        let content = b"boundary sized signed attributes".to_vec();
+        let digest = crate::keys::sha256(&content);
+        let mut out = Vec::new();
+        for total in [65534usize, 65535, 65536, 65537] {
+            // the content type OID is the only knob the RPKI profile leaves
+            let mut found = None;
+            for body in (total.saturating_sub(400)..total).rev() {
+                let ct = cms::oid_with_body_len(body, total as u64);
+                let attrs = cms::sort_attrs(&[cms::attr_content_type(&ct), cms::attr_message_digest(&digest), cms::attr_signing_time(1_767_225_600)]);
+                let len = cms::attrs_len(&attrs);
+                if len == total {
+                    found = Some((ct, attrs));
+                    break;
+                }
+                if len < total {
+                    break;
+                }
+            }
+            let Some((ct, attrs)) = found else { continue };
+            let sig = pool.key(1).sign_raw(&cms::sig_input_set(&attrs));
+            let data = cms::SignedData::rpki(ct, content.clone(), ee.clone(), ski.clone(), attrs, sig).encode();
+            out.push((total, data));
+        }
+        Some(out)
+    });
+    let mut seeds = Vec::new();
+    if let Ok(Some(list)) = made {
+        for (total, data) in list {
+            seeds.push(Seed { name: format!("built/sigobj-signed-attrs-{}", total), forest: m::parse(&data), data, home: SIGOBJ.to_vec(), text: false, plan: Plan::None });
+        }
+    }
+    seeds
+}
+
 type Made = Vec<(String, Vec<u8>, Vec<Ep>, Plan)>;
 
 fn build_objects() -> Made {
@@ -1378,6 +1444,9 @@ pub fn run(ctx: &mut Ctx) {
     let mut seeds = captured_seeds(usize::MAX);
     let n_captured = seeds.len();
     seeds.extend(built_seeds(crypto, usize::MAX));
+    if crypto {
+        seeds.extend(boundary_attr_seeds());
+    }
     let n_built = seeds.len() - n_captured;
     let parts = discover(&seeds, &fixed, 6);
     let n_parts = parts.len();
